@@ -2,10 +2,11 @@
 """Confirm seeded changes independently: in a scratch worktree, (1) demo passes without the
 change, (2) patch applies, (3) repository builds and its existing suite passes with the change,
 (4) demo fails with the change.  usage: confirm_seeds.py <outdir> <ID>..."""
-import json, os, subprocess, sys, shutil, glob
+import json, os, re, subprocess, sys, shutil, glob
 ENV = dict(os.environ, GOFLAGS="-mod=mod", GOPROXY="off", GOSUMDB="off", GOTOOLCHAIN="local")
-WT = "/tmp/conf/wt"
-STUBMOD = "/tmp/conf/stub.mod"
+CONF = os.environ.get("CONF_DIR", "/tmp/conf")
+WT = CONF + "/wt"
+STUBMOD = CONF + "/stub.mod"
 # id -> (destination dir for the demo file, command)
 TABLE = {
  "C01-A": ("data", "go test -vet=off -count=1 -run TestC01A ./data/"),
@@ -271,15 +272,28 @@ def sh(cmd, cwd=WT):
 def main():
     outdir = sys.argv[1]
     ids = sys.argv[2:] or sorted(TABLE)
-    os.makedirs("/tmp/conf", exist_ok=True)
+    os.makedirs(CONF, exist_ok=True)
     if not os.path.exists(WT):
         subprocess.check_call(["git", "-C", "/repo", "worktree", "add", "--detach", WT, "HEAD"], stdout=subprocess.DEVNULL)
     open(STUBMOD, "w").write(open("/repo/go.mod").read() + "\nrequire verif/simrt v0.0.0\n\nreplace gonum.org/v1/hdf5 => /verif/fakehdf5\n\nreplace verif/simrt => /verif/simrt\n")
-    shutil.copy("/repo/go.sum", "/tmp/conf/stub.sum")
+    shutil.copy("/repo/go.sum", CONF + "/stub.sum")
     results = {}
     for i in ids:
         out = os.path.join(outdir, i)
-        dest, cmd = TABLE[i]
+        if i in TABLE:
+            dest, cmd = TABLE[i]
+        else:
+            # wave 12 onwards: the sub-agent's meta.json names the demo's package directory and command
+            m = json.load(open(os.path.join(out, "meta.json")))
+            dest, cmd = m.get("demo_dir"), m["demo_cmd"]
+            cmd = re.sub(r"/tmp/w\d+/C\d+/stub\.mod", "%(stub)s", cmd)
+            cmd = re.sub(r"/tmp/w\d+/C\d+/out/[A-Z]\b", "%(out)s", cmd)
+            cmd = re.sub(r"/tmp/w\d+/C\d+/wt\b", "%(wt)s", cmd)
+            cmd = re.sub(r"^\s*cd\s+%\(wt\)s\s*&&\s*", "", cmd)
+            g = re.search(r"\bgo(1\.26\.8)? test [^;&|()]*", cmd)
+            if g and dest:  # keep only the test invocation (agents wrap it in cp/rm/export, which hides its exit status)
+                cmd = g.group(0).strip()
+            if dest: dest = dest.replace(WT + "/", "").strip("/").replace("./", "")
         cmd = cmd % {"out": out, "wt": WT, "stub": STUBMOD}
         sh("git checkout -- . && git clean -fdq")
         demos = [f for f in glob.glob(out + "/demo/*") if f.endswith(".go")]
@@ -306,7 +320,7 @@ def main():
             print("   suite:", os_[-300:].replace("\n", " | "))
             print("   with:", o1[-400:].replace("\n", " | "))
     sh("git checkout -- . && git clean -fdq")
-    json.dump(results, open("/tmp/conf/results.json", "w"), indent=1)
+    json.dump(results, open(CONF + "/results.json", "w"), indent=1)
 
 if __name__ == "__main__":
     main()
